@@ -242,6 +242,21 @@ def rule_use_site_read_is_fresh(ctx, fx, config):
     ctx.floor("USE-SITE.reading-functions", n, 8, config)
 
 
+def _field_of_aggr(sym, name):
+    """the value of field `name` in an aggregate, or in an aggregate nested in one of its fields (a struct grouping the two
+    locations is the same data)"""
+    if not isinstance(sym, tuple) or not sym or sym[0] != "aggr":
+        return None
+    fields, ops = sym[3], sym[4]
+    if name in fields:
+        return ops[list(fields).index(name)]
+    for o in ops:
+        r = _field_of_aggr(o, name)
+        if r is not None:
+            return r
+    return None
+
+
 def run(ctx):
     for config in ctx.configs:
         fx = ctx.facts(config)
@@ -281,8 +296,11 @@ def run(ctx):
         for bb, i, adt, var, fl, ops, s_ in aggregates(sp):
             if adt.endswith("SpannedDeser"):
                 with sp.deep():
-                    rs = sp.sym_operand(s_["rv"]["ops"][fl.index("referenced")])
-                    ds = sp.sym_operand(s_["rv"]["ops"][fl.index("defined")])
+                    whole = sp.sym_rvalue(s_["rv"])
+                rs, ds = _field_of_aggr(whole, "referenced"), _field_of_aggr(whole, "defined")
+                if rs is None or ds is None:
+                    ctx.bad("DOM", "C16:DOM:spanned:referenced", "the span-carrying deserializer no longer carries fields named `referenced` / `defined` (also not in a nested struct): re-confirm the rule", config, ctx.where(sp, bb))
+                    continue
                 r, d = render(rs), render(ds)
                 ctx.check(loc_prov(fx, rs) == {"ref"}, "DOM", "C16:DOM:spanned:referenced", "`referenced` is the event source's use-site location", "`referenced` is `%s`" % r[:120], config, ctx.where(sp, bb))
                 ctx.check("def" in loc_prov(fx, ds) and loc_prov(fx, ds) != {"ref"}, "DOM", "C16:DOM:spanned:defined", "`defined` is the peeked node's own location", "`defined` is `%s`" % d[:120], config, ctx.where(sp, bb))
